@@ -172,7 +172,10 @@ def ensure_facts(config='dev', verbose=True):
                         is_repo = json.load(fh2).get('root') == '/repo'
                 except (OSError, ValueError):
                     pass
-                ents.append((os.path.getmtime(os.path.join(base, e)), e, is_repo))
+                try:
+                    ents.append((os.path.getmtime(os.path.join(base, e)), e, is_repo))
+                except OSError:
+                    pass   # removed by a concurrent checker's eviction
             ents.sort()
             scratch = [x for x in ents if not x[2]]
             repo = [x for x in ents if x[2]]
